@@ -225,6 +225,21 @@ theorem concurrent_transparent (c : Cfg V L E) (P : Hyps c) (sched : List Act) (
   obtain ⟨pre, post, _, ho⟩ := (lock_serialisable c [] sched).2.2 p out h
   rw [ho]; exact (function_transparent c P (pre.map (·.2)) p).2
 
+/-- **concurrent_exec_once** (H0-H3).  Any number of concurrent callers of a fresh entry, under any schedule without kills:
+the wrapped function is started at most once in total (the first lock owner computes, everybody else loads). -/
+theorem concurrent_exec_once (c : Cfg V L E) (P : Hyps c) (v : V) (l : L) (hf : c.f = .ret v l) (ps : List Nat) :
+    (runPar c true (ps.map Act.step) (initC [])).execs ≤ 1 := by
+  have hg0 : Good c [] := by unfold Good; rw [hf]; exact Or.inl List.nil_prefix
+  have key : ∀ (ps : List Nat) (s : CState V L E), CInv c [] s → EInv c [] v l s → EInv c [] v l (runPar c true (ps.map Act.step) s) := by
+    intro ps
+    induction ps with
+    | nil => intro s _ he; exact he
+    | cons p t ih =>
+      intro s hs he
+      exact ih _ (act_inv c [] s hs (.step p)) (act_einv c P [] hg0 v l hf s hs he p)
+  have := key ps (initC []) (init_inv c []) (Or.inl ⟨rfl, fun _ => rfl⟩)
+  rcases this with ⟨h, _⟩ | ⟨h, _⟩ <;> omega
+
 /-- **lock_necessary.**  Without the lock (`_lock_file_fallback`) two callers of a fresh entry both run `func` at the
 same time. -/
 theorem lock_necessary (c : Cfg V L E) (h : lookup c [] = .miss) :
